@@ -336,6 +336,9 @@ struct H {
     stop_by_query: u64,
     /// discard-handler calls with reason RateLimited
     rl_refused: u64,
+    /// talk to the factory through the `factory_ref` convenience API (dispatch_job, adjust_worker_pool,
+    /// update_settings, drain_requests, queue_depth, active_workers, available_capacity) instead of raw messages
+    via_ref: bool,
 }
 
 impl H {
@@ -353,6 +356,17 @@ impl H {
     }
 
     async fn query(&self, which: u8) -> String {
+        if self.via_ref {
+            let r = match which {
+                0 => self.factory.queue_depth(None).await,
+                1 => self.factory.active_workers(None).await,
+                _ => self.factory.available_capacity(None).await,
+            };
+            return match r {
+                Ok(CallResult::Success(v)) => v.to_string(),
+                _ => "x".into(),
+            };
+        }
         let r = match which {
             0 => self.factory.call(FactoryMessage::GetQueueDepth, None).await,
             1 => self.factory.call(FactoryMessage::GetNumActiveWorkers, None).await,
@@ -460,7 +474,8 @@ impl H {
                     job.accepted = Some(RpcReplyPort::from(tx));
                     self.acc.push((id, rx));
                 }
-                if self.factory.cast(FactoryMessage::Dispatch(job)).is_err() {
+                let failed = if self.via_ref { self.factory.dispatch_job(job).is_err() } else { self.factory.cast(FactoryMessage::Dispatch(job)).is_err() };
+                if failed {
                     note = " sendfail".into();
                     if *acc == "1" {
                         self.acc.pop();
@@ -497,7 +512,9 @@ impl H {
                 }
             }
             ["resize", n] => {
-                if self.factory.cast(FactoryMessage::AdjustWorkerPool(n.parse().unwrap())).is_err() {
+                let n: usize = n.parse().unwrap();
+                let failed = if self.via_ref { self.factory.adjust_worker_pool(n).is_err() } else { self.factory.cast(FactoryMessage::AdjustWorkerPool(n)).is_err() };
+                if failed {
                     note = " sendfail".into();
                 }
             }
@@ -506,7 +523,8 @@ impl H {
                     .maybe_discard_settings(if *disc == "-" { None } else { Some(parse_disc(disc)) })
                     .maybe_worker_count(n.parse().ok())
                     .build();
-                if self.factory.cast(FactoryMessage::UpdateSettings(req)).is_err() {
+                let failed = if self.via_ref { self.factory.update_settings(req).is_err() } else { self.factory.cast(FactoryMessage::UpdateSettings(req)).is_err() };
+                if failed {
                     note = " sendfail".into();
                 }
             }
@@ -516,12 +534,14 @@ impl H {
                     Err(_) => None,
                 };
                 let req = UpdateSettingsRequest::builder().discard_handler(nh).build();
-                if self.factory.cast(FactoryMessage::UpdateSettings(req)).is_err() {
+                let failed = if self.via_ref { self.factory.update_settings(req).is_err() } else { self.factory.cast(FactoryMessage::UpdateSettings(req)).is_err() };
+                if failed {
                     note = " sendfail".into();
                 }
             }
             ["drain"] => {
-                if self.factory.cast(FactoryMessage::DrainRequests).is_err() {
+                let failed = if self.via_ref { self.factory.drain_requests().is_err() } else { self.factory.cast(FactoryMessage::DrainRequests).is_err() };
+                if failed {
                     note = " sendfail".into();
                 }
             }
@@ -578,6 +598,7 @@ where
 {
     let t0 = Instant::now();
     let rname = cfg.router.clone();
+    let via_ref = cfg.line().bytes().fold(0u32, |a, b| a.wrapping_mul(31).wrapping_add(b as u32)) % 2 == 0;
     let sh: Sh = Arc::new(Mutex::new(Shared::default()));
     let lim = match cfg.rl.as_str() {
         "none" => Lim::Off,
@@ -606,7 +627,7 @@ where
     let def = Factory::<K, M, (), GW, Spy<RateLimitedRouter<R, Lim>>, Q>::default();
     let (factory, _handle) = Actor::spawn(None, def, args).await.expect("factory spawn");
     let fid = factory.get_id().pid();
-    let mut h = H { factory, fid, sh: sh.clone(), t0, acc: vec![], blocked: false, live: vec![], stop_by_query: 0, rl_refused: 0 };
+    let mut h = H { factory, fid, sh: sh.clone(), t0, acc: vec![], blocked: false, live: vec![], stop_by_query: 0, rl_refused: 0, via_ref };
     // half a millisecond off the grid of the factory's own timers
     tokio::time::sleep(Duration::from_micros(500)).await;
     let (times, obs) = h.observe(0).await;
@@ -811,6 +832,9 @@ where
     // tear down: stop the factory (post_stop stops the workers)
     st.lock().unwrap().add("drained_factory_stopped_only_by_next_message", h.stop_by_query);
     st.lock().unwrap().add("ratelimited_refusals", h.rl_refused);
+    if h.via_ref {
+        st.lock().unwrap().bump("case_via_factory_ref_api");
+    }
     if rname == "q" {
         st.lock().unwrap().add("queuer_ratelimited_refusals", h.rl_refused);
     }
